@@ -46,6 +46,16 @@ def label(e, env):
     if e["k"] == "Array":
         return "[%s]" % ",".join(str(label(x, env)) for x in e["elems"])
     if e["k"] == "Match":
+        # `match o { Some(x) => x, None => d }` is `o.unwrap_or(d)`
+        try:
+            av = {v: (a, pat) for v, a, pat in hir.arms_by_variant(e)}
+            if set(av) == {"Some", "None"}:
+                sa, sp = av["Some"]
+                binds = hir.pat_bindings(sp) or [fd["pat"].get("name") for fd in sp.get("fields", [])]
+                if len(binds) == 1 and field_path(sa["body"]) == (binds[0],):
+                    return "unwrap_or(%s,%s)" % (label(e["scrut"], env), label(av["None"][0]["body"], env))
+        except Unrecognised:
+            pass
         try:
             arms = sorted("%s=>%s" % (v, label(a["body"], env)) for v, a, pat in hir.arms_by_variant(e))     # disjoint arms: order-free
             return "match(%s){%s}" % (label(e["scrut"], env), ";".join(arms))
